@@ -101,8 +101,9 @@ impl<'a> TypeVisitor for ZodVisitor<'a> {
                 }
             }
         }
-        // A type the analysis could not express has no schema of its own
-        if name == "unknown" {
+        // A type the analysis could not express has no schema of its own, and neither has an
+        // instantiation of a generic type (Page<Item>, Arc<Vec<Item>>): "Page<Item>Schema" is not a name
+        if name == "unknown" || !name.chars().all(|c| c.is_alphanumeric() || c == '_') {
             return "z.unknown()".to_string();
         }
         // No mapping found, reference the schema for custom types
